@@ -215,13 +215,13 @@ class StartReceiverAfterListenerClosed:
 
 @contract("secsgem.common.tcp_connection:TcpConnection._fire_connected", "C09", name="FireConnectedAbs")
 class FireConnectedAbs:
-    """Proved as FireConnected above; here its effect on the ghost counter only."""
+    """The post-condition proved as FireConnected above, used at the two call sites."""
 
     abstract = True
-    modifies = {"self.g_reported": Int}
+    modifies = {"self.on_connected.g_fired": Int, "self._connected_handled.g_set": Bool}
 
     def ensures(self, old):
-        return self.g_reported == old.self.g_reported + 1
+        return self._connected_handled.g_set and self.on_connected.g_fired == old.self.on_connected.g_fired + 1
 
 
 @contract("secsgem.common.tcp_server_connection:TcpServerConnection._TcpServerConnection__listen_and_accept", "C09")
@@ -238,17 +238,19 @@ class ListenAndAccept:
     def inputs():
         return {"self": Obj(TcpServerConnection, _settings=Obj(AbsSettings, address=Str(), port=Int(0, 65535)),
                             _server_sock=Const(None), _sock=Const(None), _stop_server_thread=Bool, _connected=Bool,
-                            g_receivers=Int(0, None), g_reported=Int(0, None))}
+                            _connected_handled=Obj(AbsGate, g_set=Bool), on_connected=Obj(AbsLinkEvent, g_fired=Int(0, None), g_owner=Root()),
+                            g_receivers=Int(0, None))}
 
     def ensures(self, old):
         served = self.g_receivers - old.self.g_receivers
-        return ((served == 0 or served == 1) and self.g_reported - old.self.g_reported == served
-                and implies(served == 1, lambda: self._connected and self._server_sock.g_closed and not self._sock.g_closed))
+        return ((served == 0 or served == 1) and self.on_connected.g_fired - old.self.on_connected.g_fired == served
+                and implies(served == 1, lambda: self._connected and self._connected_handled.g_set
+                            and self._server_sock.g_closed and not self._sock.g_closed))
 
     def inv(self, old):
         # a connection ends the run: at the loop head none has been accepted yet
         return (self._sock is None and not self._server_sock is None and self.g_receivers == old.self.g_receivers
-                and self.g_reported == old.self.g_reported)
+                and self.on_connected.g_fired == old.self.on_connected.g_fired)
 
     loops = {1: Loop(a=inv, modifies=["self._stop_server_thread"], types={"self._sock": Const(None)})}
 
@@ -283,10 +285,11 @@ class ClientConnect:
 
     def inputs():
         return {"self": Obj(TcpClientConnection, _settings=Obj(AbsSettings, address=Str(), port=Int(0, 65535)),
-                            _sock=Const(None), _connected=Bool, g_receivers=Int(0, None), g_reported=Int(0, None))}
+                            _sock=Const(None), _connected=Bool, g_receivers=Int(0, None),
+                            _connected_handled=Obj(AbsGate, g_set=Bool), on_connected=Obj(AbsLinkEvent, g_fired=Int(0, None), g_owner=Root()))}
 
     def ensures(self, old, result):
         started = self.g_receivers - old.self.g_receivers
-        return (started == (1 if result else 0) and self.g_reported - old.self.g_reported == started
-                and implies(result, lambda: self._connected and not self._sock.g_closed)
+        return (started == (1 if result else 0) and self.on_connected.g_fired - old.self.on_connected.g_fired == started
+                and implies(result, lambda: self._connected and self._connected_handled.g_set and not self._sock.g_closed)
                 and implies(not result, lambda: self._connected == old.self._connected))
